@@ -33,17 +33,24 @@ CONSTANTS
     PosBoxB,      \* bound on the free coordinates in the positive-solution search
     CertBoxY,     \* bound on certificate entries
     SearchCap,    \* largest number of free assignments a minimality search may visit
-    CheckBox      \* bound of the independent box searches in the self-checks (0 = off)
+    CheckBox,     \* bound of the independent box searches in the self-checks (0 = off)
+    Forms,        \* call forms to enumerate (generation only)
+    Canon         \* "strict": canonical problems only; "loose": also empty species, equal species
+                  \* within a side and keys that no species contains (generation only)
 
-VARIABLES comp, nr, np, nk, crow, scale, filled, stage, info, dupl, mode, outcome
+VARIABLES comp, nr, np, nk, crow, scale, filled, stage, info, dupl, mode, outcome, form
 
-vars == <<comp, nr, np, nk, crow, scale, filled, stage, info, dupl, mode, outcome>>
+vars == <<comp, nr, np, nk, crow, scale, filled, stage, info, dupl, mode, outcome, form>>
 
 AllModes == {"True", "False", "None"}
 \* dtag / dcls: sub-class and placement classes of a duplicate problem (set by ChooseDupl)
 NoInfo == [c |-> "none", sub |-> "", d |-> 0, gen |-> <<>>, minsum |-> 0, mins |-> {}, complete |-> FALSE,
            dtag |-> "", dcls |-> {}]
 NoOutcome == [k |-> "none"]
+\* the form of the call (see ChooseForm)
+NoForm == [set |-> FALSE]
+DefaultForm == [set |-> TRUE, cont |-> "list", naming |-> "plain", subst |-> "map", psym |-> "default",
+                num |-> "int", calls |-> 1, modearg |-> "plain", allow |-> FALSE]
 
 ------------------------------------------------------------------------------
 (* the signed matrix *)
@@ -236,6 +243,7 @@ Expected ==
 Init ==
     /\ comp = <<>> /\ nr = 0 /\ np = 0 /\ nk = 0 /\ crow = 0 /\ scale = 1 /\ filled = 0
     /\ stage = "shape" /\ info = NoInfo /\ dupl = {} /\ mode = "" /\ outcome = NoOutcome
+    /\ form = NoForm
 
 \* crow: index of the net-charge row (0: none)
 ChooseShape(r, p, k, cr, sc) ==
@@ -244,7 +252,7 @@ ChooseShape(r, p, k, cr, sc) ==
     /\ nr' = r /\ np' = p /\ nk' = k /\ crow' = cr /\ scale' = sc
     /\ comp' = [i \in 1..k |-> [j \in 1..(r + p) |-> 0]]
     /\ filled' = 0 /\ stage' = "fill"
-    /\ UNCHANGED <<info, dupl, mode, outcome>>
+    /\ UNCHANGED <<info, dupl, mode, outcome, form>>
 
 \* entries are written column by column (species by species)
 NextJ == (filled \div nk) + 1
@@ -255,20 +263,20 @@ SetEntry(k, j, v) ==
     /\ v \in Int /\ (k # crow => v >= 0)
     /\ comp' = [comp EXCEPT ![k][j] = v]
     /\ filled' = filled + 1
-    /\ UNCHANGED <<nr, np, nk, crow, scale, stage, info, dupl, mode, outcome>>
+    /\ UNCHANGED <<nr, np, nk, crow, scale, stage, info, dupl, mode, outcome, form>>
 
 Classify ==
     /\ stage = "fill" /\ filled = nk * N
     /\ info' = ClassInfo(A, PosBoxB, CertBoxY)
     /\ stage' = "classified"
-    /\ UNCHANGED <<comp, nr, np, nk, crow, scale, filled, dupl, mode, outcome>>
+    /\ UNCHANGED <<comp, nr, np, nk, crow, scale, filled, dupl, mode, outcome, form>>
 
 \* the problem is taken as it is, without classification (see "undecided / unclassified" above)
 Unclassified ==
     /\ stage = "fill" /\ filled = nk * N
     /\ info' = [NoInfo EXCEPT !.c = "undecided", !.sub = "unclassified"]
     /\ stage' = "classified"
-    /\ UNCHANGED <<comp, nr, np, nk, crow, scale, filled, dupl, mode, outcome>>
+    /\ UNCHANGED <<comp, nr, np, nk, crow, scale, filled, dupl, mode, outcome, form>>
 
 ChooseDupl(D) ==
     /\ stage = "classified" /\ dupl = {} /\ ~Unelim(info)
@@ -276,7 +284,7 @@ ChooseDupl(D) ==
     /\ dupl' = D
     /\ LET pcm == PlacementClassMap(D)
        IN  info' = [info EXCEPT !.dtag = DuplTagOf(D, pcm), !.dcls = {pcm[pl] : pl \in DOMAIN pcm}]
-    /\ UNCHANGED <<comp, nr, np, nk, crow, scale, filled, stage, mode, outcome>>
+    /\ UNCHANGED <<comp, nr, np, nk, crow, scale, filled, stage, mode, outcome, form>>
 
 (* A WITNESS: a positive integer vector claimed (by whoever poses the problem) to balance it.   *)
 (* The claim is checked here, exactly; a verified witness settles feasibility of a problem the  *)
@@ -292,29 +300,67 @@ Witness(x) ==
                ELSE IF info.c = "multi" /\ VecSum(x) < info.minsum
                     THEN [info EXCEPT !.minsum = VecSum(x), !.mins = {}, !.complete = FALSE]
                     ELSE info
-    /\ UNCHANGED <<comp, nr, np, nk, crow, scale, filled, stage, dupl, mode, outcome>>
+    /\ UNCHANGED <<comp, nr, np, nk, crow, scale, filled, stage, dupl, mode, outcome, form>>
 
 ChooseMode(m) ==
     /\ stage = "classified"
     /\ m \in AllModes
     /\ (dupl # {} => m = "None")          \* documented: duplicates require the smallest-integers mode
     /\ mode' = m /\ stage' = "mode"
-    /\ UNCHANGED <<comp, nr, np, nk, crow, scale, filled, info, dupl, outcome>>
+    /\ UNCHANGED <<comp, nr, np, nk, crow, scale, filled, info, dupl, outcome, form>>
+
+(* THE FORM OF THE CALL.  The same problem can be handed to balance_stoichiometry in many      *)
+(* ways; none of them is part of the problem, so the admissible outcomes (Judge) do not depend *)
+(* on the form - that independence is the specification of every argument below.             *)
+(*   cont    container of the reactant / product keys: list, tuple, set (the code sorts it),   *)
+(*           frozenset, dict (ordered mapping whose keys are the species)                      *)
+(*   naming  species names whose sorted order is / is the reverse of the order given           *)
+(*           (unpadded numbers: "R10" sorts before "R2")                                       *)
+(*   subst   substances= exact mapping | mapping with unrelated extra substances | string of   *)
+(*           names + substance_factory | None + substance_factory                              *)
+(*   psym    parametric_symbols= default | user generator of integer symbols | of plain ones   *)
+(*   num     amounts as ints where integral | all floats | ints with an explicit amount 0 for  *)
+(*           every key the species does not contain                                            *)
+(*   calls   the observation is the outcome of the first / second call with the same objects   *)
+(*   modearg mode None passed as None ("plain") or as the deprecated literal 1 ("one")         *)
+(*   allow   allow_duplicates flag (must be TRUE when duplicates are declared)                 *)
+IsForm(f) ==
+    /\ DOMAIN f = DOMAIN DefaultForm /\ f.set = TRUE
+    /\ f.cont \in {"list", "tuple", "set", "frozenset", "dict"}
+    /\ f.naming \in {"plain", "reversed"}
+    /\ f.subst \in {"map", "superset", "str", "none"}
+    /\ f.psym \in {"default", "user_int", "user_plain"}
+    /\ f.num \in {"int", "float", "explicit0"}
+    /\ f.calls \in {1, 2}
+    /\ f.modearg \in {"plain", "one"}
+    /\ f.allow \in BOOLEAN
+\* (the deprecated literal 1 is an alias of None only without duplicates: allow_duplicates is documented
+\*  to require underdetermined=None itself)
+FormFits(f) == /\ (f.modearg = "one" => (mode = "None" /\ dupl = {}))
+               /\ (dupl # {} => f.allow)
+ChooseForm(f) ==
+    /\ stage = "mode" /\ ~form.set
+    /\ IsForm(f) /\ FormFits(f)
+    /\ form' = f
+    /\ UNCHANGED <<comp, nr, np, nk, crow, scale, filled, stage, info, dupl, mode, outcome>>
 
 Accept(res) ==
     /\ stage = "mode"
     /\ Admissible(res)
     /\ outcome' = res /\ stage' = "done"
-    /\ UNCHANGED <<comp, nr, np, nk, crow, scale, filled, info, dupl, mode>>
+    /\ UNCHANGED <<comp, nr, np, nk, crow, scale, filled, info, dupl, mode, form>>
 
 ------------------------------------------------------------------------------
 (* generation wrappers: canonical problems only (columns strictly increasing within a side,   *)
 (* hence no duplicate species within a side; no empty species; no unused key)                 *)
 LexLess(a, b) == \E i \in 1..Len(a) : a[i] < b[i] /\ \A h \in 1..(i - 1) : a[h] = b[h]
+LexLeq(a, b) == a = b \/ LexLess(a, b)
 ColCanonical(cm, nreac, j) ==
-    /\ \E k \in 1..Len(cm) : cm[k][j] # 0
-    /\ (j # 1 /\ j # nreac + 1) => LexLess(Col(cm, j - 1), Col(cm, j))
-RowsUsed(cm) == \A k \in 1..Len(cm) : \E j \in 1..Len(cm[k]) : cm[k][j] # 0
+    IF Canon = "loose"
+    THEN (j # 1 /\ j # nreac + 1) => LexLeq(Col(cm, j - 1), Col(cm, j))
+    ELSE /\ \E k \in 1..Len(cm) : cm[k][j] # 0
+         /\ (j # 1 /\ j # nreac + 1) => LexLess(Col(cm, j - 1), Col(cm, j))
+RowsUsed(cm) == Canon = "loose" \/ \A k \in 1..Len(cm) : \E j \in 1..Len(cm[k]) : cm[k][j] # 0
 
 GenShape == \E s \in Shapes, cr \in ChargeRows, sc \in Scales :
     /\ (cr => s[3] >= 2)
@@ -326,15 +372,19 @@ GenSetEntry == stage = "fill" /\ \E v \in (IF NextK = crow THEN ChargeVals ELSE 
 MatchPairs == {p \in (1..nr) \X ((nr + 1)..N) : Col(comp, p[1]) = Col(comp, p[2])}
 GenDupl == "some" \in DuplModes /\ \E D \in SUBSET MatchPairs : ChooseDupl(D)
 GenMode == \E m \in Modes : ("none" \in DuplModes \/ dupl # {}) /\ ChooseMode(m)
+\* the form is adjusted to what the problem requires (duplicates need the flag, "one" needs mode None)
+FitForm(f) == [f EXCEPT !.allow = (f.allow \/ dupl # {}),
+                         !.modearg = IF mode = "None" /\ dupl = {} THEN f.modearg ELSE "plain"]
+GenForm == \E f \in Forms : ChooseForm(FitForm(f))
 
 \* candidate outcomes for the Accept self-check (small models only)
 RaiseRes(e) == [k |-> "raise", exc |-> e]
 NumRes(x) == [k |-> "num", x |-> [j \in 1..Len(x) |-> <<x[j], 1>>], present |-> [j \in 1..Len(x) |-> TRUE], extra |-> 0]
 Candidates == IF CheckBox = 0 THEN {}
               ELSE {RaiseRes("ValueError"), RaiseRes("TypeError")} \cup {NumRes(x) : x \in Box(N, -1, CheckBox)}
-GenAccept == \E res \in Candidates : Accept(res)
+GenAccept == form.set /\ \E res \in Candidates : Accept(res)
 
-Next == GenShape \/ GenSetEntry \/ Classify \/ GenDupl \/ GenMode \/ GenAccept
+Next == GenShape \/ GenSetEntry \/ Classify \/ GenDupl \/ GenMode \/ GenForm \/ GenAccept
 Spec == Init /\ [][Next]_vars
 
 ------------------------------------------------------------------------------
@@ -393,13 +443,13 @@ AcceptSound == (stage = "done" /\ dupl = {}) =>
 
 ------------------------------------------------------------------------------
 (* case export *)
-Ready == stage = "mode"
+Ready == stage = "mode" /\ form.set
 ClassTag == IF dupl # {} THEN info.dtag ELSE info.c \o (IF info.sub = "" THEN "" ELSE "-" \o info.sub)
 ClassLabel == ClassTag \o "/" \o mode \o (IF crow = 0 THEN "" ELSE "/q")
               \o (IF scale = 1 THEN "" ELSE "/s")
 CaseRec ==
     [in  |-> [nr |-> nr, np |-> np, nk |-> nk, crow |-> crow, scale |-> scale, comp |-> comp,
-              mode |-> mode, dupl |-> SetToSortSeq(dupl, LAMBDA p, q : p[1] < q[1])],
+              mode |-> mode, dupl |-> SetToSortSeq(dupl, LAMBDA p, q : p[1] < q[1]), form |-> form],
      exp |-> [kind |-> Expected.kind, sols |-> Expected.sols, exc |-> Expected.exc,
               c |-> info.c, sub |-> info.sub, d |-> info.d, gen |-> info.gen],
      cls |-> ClassLabel]
